@@ -3,7 +3,9 @@ import KV.Base.Hex
 # Model of MConnection packetisation (lib/p2p/conn/connection.go)
 
 Sender side of a `Channel`: `sendQueue` (FIFO of whole messages), `sending` (rest of the message
-being packetised); `isSendPending`, `nextPacketMsg`.  Receiver side: `recving`,
+being packetised; `nil` = no message in flight, a dequeued empty message is a non-nil empty
+slice and stays in flight until its EOF packet is sent – fix of finding C20-E1);
+`isSendPending`, `nextPacketMsg`.  Receiver side: `recving`,
 `recvPacketMsg` with the `RecvMessageCapacity` check.  `sendPacketMsg` calls `isSendPending`
 on *every* channel (which dequeues!) and then picks one pending channel by
 `recentlySent/priority`; the pick is abstracted to an arbitrary pending channel, so the theorems
@@ -25,27 +27,34 @@ deriving Repr, DecidableEq
 `onReceive` so far. -/
 structure Chan where
   queue : List Bytes := []      -- sendQueue
-  sending : Bytes := []         -- ch.sending (nil and empty are not distinguished by the code)
+  sending : Option Bytes := none -- ch.sending: `none` = nil = no message in flight,
+                                 -- `some []` = non-nil empty slice = an empty message in flight
   recving : Bytes := []         -- ch.recving
   delivered : List Bytes := []  -- ghost
   enq : List Bytes := []        -- ghost
 deriving Repr, DecidableEq
 
-/-- `isSendPending`: note the dequeue as a side effect -/
+/-- `isSendPending`: note the dequeue as a side effect.  It happens only when `ch.sending == nil`;
+the dequeued message is stored non-nil (`if ch.sending == nil { ch.sending = []byte{} }`), i.e. as
+`some m` also when `m` is empty (`Send(nil)` and `Send([]byte{})` are the same message `[]`). -/
 def isSendPending (c : Chan) : Bool × Chan :=
-  if c.sending.length = 0 then
+  match c.sending with
+  | none =>
     match c.queue with
     | [] => (false, c)
-    | m :: q => (true, { c with sending := m, queue := q })
-  else (true, c)
+    | m :: q => (true, { c with sending := some m, queue := q })
+  | some _ => (true, c)
 
-/-- `nextPacketMsg` -/
+/-- `nextPacketMsg`.  Slicing/`len` of a nil slice behave as for the empty slice (`getD []`; the
+code calls it only after `isSendPending` returned true, i.e. on `some _`).  At EOF
+`ch.sending = nil`; otherwise the rest `sending[min(maxSize,len):]`, non-nil. -/
 def nextPacket (maxSize : Nat) (id : Nat) (c : Chan) : Packet × Chan :=
-  let data := c.sending.take (min maxSize c.sending.length)
-  if c.sending.length ≤ maxSize then
-    (⟨id, true, data⟩, { c with sending := [] })
+  let s := c.sending.getD []
+  let data := s.take (min maxSize s.length)
+  if s.length ≤ maxSize then
+    (⟨id, true, data⟩, { c with sending := none })
   else
-    (⟨id, false, data⟩, { c with sending := c.sending.drop (min maxSize c.sending.length) })
+    (⟨id, false, data⟩, { c with sending := some (s.drop (min maxSize s.length)) })
 
 /-- `recvPacketMsg`: `none` = error "received message exceeds available capacity";
 `some (some m, _)` = message complete -/
@@ -59,8 +68,8 @@ def recvPacket (cap : Nat) (recving : Bytes) (p : Packet) : Option (Option Bytes
 def packetize (maxSize id : Nat) : Nat → Bytes → List Packet
   | 0, _ => []
   | fuel + 1, s =>
-    let (p, c) := nextPacket maxSize id { sending := s }
-    if p.eof then [p] else p :: packetize maxSize id fuel c.sending
+    let (p, c) := nextPacket maxSize id { sending := some s }
+    if p.eof then [p] else p :: packetize maxSize id fuel (c.sending.getD [])
 
 /-- feed packets of one channel to a receiver: delivered messages, or `none` on error together
 with what had been delivered before -/
@@ -113,8 +122,8 @@ def run (maxSize : Nat) (caps : Nat → Nat) (s : Sys) (acts : List Act) : Sys :
 
 def init : Sys := { ch := fun _ => {} }
 
-/-- nothing left to send on channel `j` -/
-def idle (c : Chan) : Prop := c.queue = [] ∧ c.sending = []
+/-- nothing left to send on the channel: queue empty and no message in flight (`sending == nil`) -/
+def idle (c : Chan) : Prop := c.queue = [] ∧ c.sending = none
 
 instance (c : Chan) : Decidable (idle c) := by unfold idle; infer_instance
 
